@@ -143,6 +143,7 @@ class Model(object):
         self.steps = 0
         self.ntok = 0
         self.argstack = []       # macros whose arguments are being pre-expanded
+        self.active = {}         # macro name -> number of its expansions whose tokens are still being rescanned
         self.max_tokens = max_tokens
         self.max_steps = max_steps
         self.out = []
@@ -368,12 +369,23 @@ class Model(object):
         if self.steps > self.max_steps:
             raise Ambiguous("expansion too large")
 
+    def _peek(self, inp):
+        """next real token on the stack; finished expansion contexts in front of it are closed (this is what a
+        context-based implementation does when it looks for the '(' of a function-like macro)"""
+        while inp and inp[-1].k == "ctxend":
+            self.active[inp[-1].s] -= 1
+            inp.pop()
+        return inp[-1] if inp else None
+
     def expand(self, toks, top=False, depth=0):
         out = []
         inp = list(reversed(toks))
         carry_ws = False
         while inp:
             t = inp.pop()
+            if t.k == "ctxend":
+                self.active[t.s] -= 1
+                continue
             if carry_ws:
                 if not t.ws:
                     t = t.cp(ws=True)
@@ -392,17 +404,27 @@ class Model(object):
                 self.f.add(("self-ref-suppressed-" if t.org == t.s else "mutual-ref-suppressed-") + kind)
                 if t.va:
                     self.f.add("suppressed-via-arg")
-                if kind == "fn" and inp and inp[-1].s == "(":
+                # is the named macro still being expanded (any context-stack implementation suppresses it), or is
+                # the mark on the token ("no longer available for replacement") the only thing that protects it?
+                if self.active.get(t.s, 0) > 0:
+                    self.f.add("suppressed-in-own-expansion")
+                    if kind == "obj" and t.va:
+                        self.f.add("own-name-via-fn-arg")     # own name handed on through function-like macros
+                else:
+                    self.f.add("suppressed-by-paint-only")
+                nx = self._peek(inp)
+                if kind == "fn" and nx is not None and nx.s == "(":
                     self.f.add("suppressed-name-before-paren")
                 out.append(t)
                 continue
             self.tick()
-            if t.s in self.argstack and (m.params is None or (inp and inp[-1].s == "(")):
+            nx = self._peek(inp) if m.params is not None else None
+            if t.s in self.argstack and (m.params is None or (nx is not None and nx.s == "(")):
                 self.f.add("same-macro-in-own-arg")
             if m.params is None:
                 res = self.subst(m, None, t.hs | {t.s}, t)
             else:
-                if not inp or inp[-1].s != "(":
+                if nx is None or nx.s != "(":
                     self.f.add("fn-name-no-paren")
                     out.append(t)
                     continue
@@ -428,7 +450,7 @@ class Model(object):
             if t.org is not None:
                 self.f.add("rescan-nested")
             prev = out[-1] if out else None
-            nxt = inp[-1] if inp else None
+            nxt = next((x for x in reversed(inp) if x.k != "ctxend"), None)
             if not res:
                 carry_ws = t.ws
                 if prev is not None and nxt is not None and not (t.ws or nxt.ws) and not glue_ok(prev.s, nxt.s):
@@ -439,6 +461,8 @@ class Model(object):
                 if nxt is not None and not nxt.ws and not glue_ok(res[-1].s, nxt.s):
                     self.f.add("adjacent-would-paste")
                 res[0] = res[0].cp(ws=t.ws)
+                self.active[t.s] = self.active.get(t.s, 0) + 1
+                inp.append(Tok("ctxend", t.s))
                 inp.extend(reversed(res))
         return out
 
@@ -451,6 +475,9 @@ class Model(object):
             if not inp:
                 raise Invalid("unterminated argument list of " + m.name)
             t = inp.pop()
+            if t.k == "ctxend":
+                self.active[t.s] -= 1
+                continue
             if t.s == "(":
                 depth += 1
             elif t.s == ")":
@@ -560,6 +587,7 @@ class Model(object):
             for idx in range(len(args)):
                 if idx not in cache and args[idx]:
                     keep = set(self.f)
+                    keep_active = dict(self.active)
                     self.f.discard("arg-expansion-makes-comma")
                     try:
                         self.expanded_arg(m, args, idx, cache)
@@ -568,6 +596,7 @@ class Model(object):
                     except (Invalid, Ambiguous):
                         made = skipped = False
                     self.f = keep
+                    self.active = keep_active
                     if made:
                         self.f.add("arg-expansion-makes-comma")
                     if skipped:
@@ -748,7 +777,7 @@ def reference(prog):
 # ---------------------------------------------------------------------------
 
 FLAGS = ["objlike", "fnlike", "variadic", "va_opt", "stringify", "paste", "nested", "multiline", "empty_args",
-         "paren_commas", "lit_names", "macro_as_arg", "self_ref", "mutual_ref", "undef_redef", "push_pop",
+         "paren_commas", "lit_names", "macro_as_arg", "self_ref", "mutual_ref", "wrapped_self_ref", "undef_redef", "push_pop",
          "cmdline"]
 
 IDENTS = ["a", "b", "c", "d", "e", "foo", "bar", "baz", "n", "k", "v", "w0", "int", "const", "q"]
@@ -765,6 +794,7 @@ class MacroInfo(object):
         self.name, self.params, self.variadic = name, params, variadic
         self.roles = {}        # param -> set of 'L','R' (used as paste operand)
         self.tail = None       # spelling of the last token of its replacement list
+        self.script = None     # fixed replacement list (wrapped self-reference construct) instead of a random one
         self.pure_ident = False
 
 
@@ -1056,7 +1086,7 @@ class Gen(object):
         return out
 
     def define_text(self, info, index):
-        body = self.body(info, index)
+        body = list(info.script) if info.script is not None else self.body(info, index)
         head = info.name
         if info.params is not None:
             ps = list(info.params) + (["..."] if info.variadic else [])
@@ -1080,9 +1110,29 @@ class Gen(object):
             if fl.get("variadic"):
                 opts += ["var"] * 3
             kinds.append(r.choice(opts))
+        wrapped = None
+        if fl.get("wrapped_self_ref"):
+            # an object-like macro that refers to itself (and to a partner) THROUGH 1..3 levels of function-like
+            # macros: its own name is handed on as an argument  (X -> W2(X) -> W1(X) -> W0(X) -> X)
+            depth = r.choice([1, 2, 2, 3, 3])
+            mutual = r.random() < 0.5
+            need = depth + 1 + (1 if mutual else 0)
+            if ndefs < need:
+                ndefs = need + r.randint(0, 2)
+                kinds = kinds + [r.choice(kinds or ["obj"]) for _ in range(ndefs - len(kinds))]
+            for i in range(depth):
+                kinds[i] = "wfn"
+            kinds[depth] = "wobj"
+            if mutual:
+                kinds[depth + 1] = "wobj"
+            wrapped = (depth, mutual)
         for i, k in enumerate(kinds):
             name = "M%d" % i
-            if k == "obj":
+            if k == "wfn":
+                info = MacroInfo(name, PARAMS[:r.choice([1, 1, 2])], False)
+            elif k == "wobj":
+                info = MacroInfo(name, None, False)
+            elif k == "obj":
                 info = MacroInfo(name, None, False)
             elif k == "fn":
                 np_ = r.choice([0, 1, 1, 1, 2, 2, 3])
@@ -1094,6 +1144,8 @@ class Gen(object):
         # bodies: generate in REVERSE order so that paste roles of later macros are known to earlier callers?
         # No: a body refers mostly to EARLIER macros, whose roles must be known -> generate in order; references
         # to later macros (mutual recursion) see roles discovered so far only (the model rejects bad pastes).
+        if wrapped:
+            self.script_wrapped(*wrapped)
         texts = []
         for i, info in enumerate(self.macros):
             texts.append(self.define_text(info, i))
@@ -1184,9 +1236,58 @@ class Gen(object):
                         texts[i] = txt
                     else:
                         live.discard(i)
+        if wrapped:
+            depth, mutual = wrapped
+            toks = [self.macros[depth].name]
+            if mutual and r.random() < 0.7:
+                toks += [r.choice(BIN), self.macros[depth + 1].name]
+            if r.random() < 0.3:
+                toks = ["("] + toks + [")"]
+            units.append({"k": "use", "t": self.render(r.choice([[], ["int", "v", "="], ["return"]]) + toks + [";"])})
         for _ in range(r.randint(1, 3)):
             use()
         return {"units": units}
+
+    def script_wrapped(self, depth, mutual):
+        r = self.r
+        W = self.macros[:depth]
+        X = self.macros[depth]
+        Y = self.macros[depth + 1] if mutual else None
+
+        def callw(w, first):
+            out = [w.name, "("] + first
+            for _p in w.params[1:]:
+                out += [",", r.choice(IDENTS + ["1", "2"])]
+            return out + [")"]
+
+        def around(core, extra):
+            out = list(core)
+            if r.random() < 0.4:
+                out = [r.choice(IDENTS), r.choice(BIN)] + out
+            if r.random() < 0.4:
+                out = out + [r.choice(BIN)] + extra
+            return out
+
+        for i, w in enumerate(W):
+            ex = [w.params[1]] if len(w.params) > 1 else [r.choice(IDENTS)]
+            if i == 0:
+                core = r.choice([["x"], ["(", "x", ")"], ["x"]])
+                if len(w.params) > 1:
+                    core = core + [r.choice(BIN), w.params[1]]
+                w.script = around(core, [r.choice(IDENTS)])
+            else:
+                inner = callw(W[i - 1], ["x"])
+                if r.random() < 0.3:
+                    inner = callw(W[r.randrange(i)], inner)         # nested invocation on the way
+                w.script = around(inner, ex)
+        top = W[-1]
+        if Y is None:
+            X.script = around(callw(top, [X.name]), [r.choice(IDENTS)])
+        else:
+            X.script = around(callw(top, [r.choice([X.name, Y.name])]), [Y.name])
+            if X.name not in X.script and Y.name not in X.script[:-1]:
+                X.script = X.script + [r.choice(BIN), Y.name]
+            Y.script = around(callw(r.choice(W), [X.name]), [r.choice(IDENTS)])
 
     def span_call(self, scope):
         """an invocation whose name comes out of a macro expansion and whose argument list is written after it:
@@ -1222,7 +1323,7 @@ class Gen(object):
         return [r.choice(BIN)] + head + args
 
 
-PROB = {"objlike": 0.6, "fnlike": 0.6, "self_ref": 0.15, "mutual_ref": 0.15, "lit_names": 0.2, "cmdline": 0.25,
+PROB = {"wrapped_self_ref": 0.15, "objlike": 0.6, "fnlike": 0.6, "self_ref": 0.15, "mutual_ref": 0.15, "lit_names": 0.2, "cmdline": 0.25,
         "push_pop": 0.25, "undef_redef": 0.3, "va_opt": 0.25, "variadic": 0.35, "stringify": 0.3, "paste": 0.3,
         "empty_args": 0.3, "paren_commas": 0.3, "macro_as_arg": 0.3, "nested": 0.4, "multiline": 0.3}
 
